@@ -509,6 +509,112 @@ func runC16(c *Ctx) {
 	c.rule("R4", "raw message bytes are indexed at constant offsets only under a length guard, a construction length, or the 12-byte minimum of the readers", 30)
 	checkRawIndexGuarded(c, p.funcsIn(relTransport, relDoh, relUpstream, relDnsutils, relServer, relPool), map[string]string{})
 
+	// ---------------------------------------------------------------- R6
+	c.rule("R6", "which framing a connection object uses is decided by how it was dialled: WithLengthHeader is true for every stream connection handed to NewDnsConn and false only for the datagram socket; the frame reader reads the connection itself (no read-ahead wrapper); nothing writes into a framed reply after it was packed", 5)
+	{
+		tr := p.newTracer()
+		tr.throughCalls, tr.throughParams, tr.throughFields = false, false, false
+		n := 0
+		for _, f := range p.funcsIn(relUpstream) {
+			fn := f
+			eachInstr(f, func(in ssa.Instruction) {
+				ci, ok := in.(*ssa.Call)
+				if !ok || callName(ci) != relTransport+".NewDnsConn" {
+					return
+				}
+				n++
+				c.see(fn)
+				// the option value
+				hdr := "unset"
+				for _, o := range tr.origins(ci.Call.Args[0]) {
+					al, ok := o.(*ssa.Alloc)
+					if !ok {
+						if ld, ok2 := o.(*ssa.UnOp); ok2 {
+							al, ok = ld.X.(*ssa.Alloc)
+							if fv, isFv := ld.X.(*ssa.FreeVar); isFv {
+								for _, b := range bindingOf(fv) {
+									if a2, isA := b.(*ssa.Alloc); isA {
+										al, ok = a2, true
+									}
+								}
+							}
+						}
+					}
+					if !ok || al == nil {
+						hdr = "unknown"
+						continue
+					}
+					for _, r := range referrers(al) {
+						fa, ok := r.(*ssa.FieldAddr)
+						if !ok {
+							continue
+						}
+						if k, _ := fieldKey(fa); !strings.HasSuffix(k, ".TraditionalDnsConnOpts.WithLengthHeader") {
+							continue
+						}
+						for _, r2 := range referrers(fa) {
+							if st, ok := r2.(*ssa.Store); ok {
+								if b, isB := constBool(st.Val); isB {
+									hdr = map[bool]string{true: "true", false: "false"}[b]
+								} else {
+									hdr = "non-constant"
+								}
+							}
+						}
+					}
+				}
+				// datagram? the connection handed over was dialled with network "udp" in this closure
+				udp := false
+				eachInstr(fn, func(y ssa.Instruction) {
+					cl, ok := y.(*ssa.Call)
+					if !ok {
+						return
+					}
+					if strings.HasSuffix(callName(cl), "DialContext") || strings.HasSuffix(callName(cl), ".Dial") {
+						for _, a := range cl.Call.Args {
+							if cst, ok := a.(*ssa.Const); ok && cst.Value != nil && strings.HasPrefix(strings.Trim(cst.Value.ExactString(), "\""), "udp") {
+								udp = true
+							}
+						}
+					}
+				})
+				key := "framing-option@" + funcName(fn)
+				if udp {
+					c.check(hdr == "false" || hdr == "unset", key, instrPos(in), "datagram socket: no length header", "a datagram socket is wrapped with WithLengthHeader "+hdr)
+				} else {
+					c.check(hdr == "true", key, instrPos(in), "stream connection: WithLengthHeader true", "a stream connection is handed to NewDnsConn with WithLengthHeader "+hdr+": queries are written without the two-byte length and replies are read as datagrams — nothing on that connection is a frame")
+				}
+			})
+		}
+		if n == 0 {
+			c.anchorMissing("transport.NewDnsConn call sites in pkg/upstream")
+		}
+	}
+	checkFrameReaderReadFull(c)
+	// no store into the packed payload in the handler after packing
+	if hh := c.fn(relHandler, "EntryHandler", "Handle"); hh != nil {
+		bad := ""
+		var badPos token.Pos
+		eachInstr(hh, func(in ssa.Instruction) {
+			switch x := in.(type) {
+			case *ssa.Call:
+				cn := callName(x)
+				if cn == binPut16 || cn == "builtin:copy" || strings.HasPrefix(cn, "(encoding/binary.bigEndian).Put") {
+					bad, badPos = cn, instrPos(in)
+				}
+			case *ssa.Store:
+				if ia, ok := x.Addr.(*ssa.IndexAddr); ok {
+					if st, ok := ia.X.Type().Underlying().(*types.Slice); ok {
+						if b, ok := st.Elem().Underlying().(*types.Basic); ok && b.Kind() == types.Uint8 {
+							bad, badPos = "a byte store", instrPos(in)
+						}
+					}
+				}
+			}
+		})
+		c.check(bad == "", "handler-leaves-frame-alone", badPos, "the handler never writes into packed bytes", "the handler writes into the packed payload ("+bad+") after the packer framed it: with the length-prefixing packer bytes 0..1 are the frame length, so the frame announces a wrong size")
+	}
+
 	// ---------------------------------------------------------------- R5
 	c.rule("R5", "a reply Write on a shared server connection cannot end half-done and be followed by another frame: no write deadline is armed unless a failed Write closes the connection", 2)
 	for _, f := range p.funcsIn(relServer) {
@@ -532,22 +638,19 @@ func runC16(c *Ctx) {
 		if len(writes) == 0 {
 			continue
 		}
-		// a deadline armed anywhere in the same top-level function (enclosing or nested closures) counts
-		top := fn
-		for top.Parent() != nil {
-			top = top.Parent()
+		// a write deadline armed anywhere in the server package counts (helpers included)
+		wt := writes[0].Call.Value.Type().String()
+		if ddl != nil && ddl.(*ssa.Call).Call.Value.Type().String() != wt {
+			ddl = nil
 		}
 		for _, g := range p.funcsIn(relServer) {
-			t2 := g
-			for t2.Parent() != nil {
-				t2 = t2.Parent()
-			}
-			if t2 != top || ddl != nil {
+			if ddl != nil {
 				continue
 			}
 			eachInstr(g, func(in ssa.Instruction) {
 				if ci, ok := in.(*ssa.Call); ok && ci.Call.IsInvoke() {
-					if n := ci.Call.Method.Name(); n == "SetWriteDeadline" || n == "SetDeadline" {
+					// on the same kind of connection object as the one written to
+					if n := ci.Call.Method.Name(); (n == "SetWriteDeadline" || n == "SetDeadline") && ci.Call.Value.Type().String() == wt {
 						ddl = in
 					}
 				}
@@ -595,6 +698,23 @@ func runC16(c *Ctx) {
 
 	// ---------------------------------------------------------------- R2
 	c.rule("R2", "every stream reader uses the frame reader", 4)
+	// after a read / framing error the stream servers stop reading that connection (the stream position is unknown)
+	for _, f := range p.funcsIn(relServer) {
+		fn := f
+		eachInstr(f, func(in ssa.Instruction) {
+			ci, ok := in.(*ssa.Call)
+			if !ok {
+				return
+			}
+			cn := callName(ci)
+			if cn != relDnsutils+".ReadMsgFromTCP" && cn != relDnsutils+".ReadRawMsgFromTCP" {
+				return
+			}
+			ok2, why := errCheckedAndReturned(ci)
+			c.check(ok2, "read-error-ends-connection@"+funcName(fn), instrPos(in), "a read or framing error ends the connection's read loop", "after a read/framing error the server goes on reading the same connection ("+why+"): the bytes of the bad frame were not consumed, every later frame boundary is wrong")
+		})
+	}
+
 	if rd != nil {
 		rmt := p.Func(relDnsutils, "", "ReadMsgFromTCP")
 		n := 0
